@@ -54,6 +54,15 @@ def getCollectionValue(collection, what):
         return None
 
 
+def hostError(e, pos):
+    # a failure of the host language (ValueError, TypeError, OSError, ...)
+    # while evaluating is reported as the language's own runtime error,
+    # so that programs can catch it and hosts need not expect anything else
+    return CklRuntimeError(
+        ValueString("ERROR"), f"{type(e).__name__}: {e}", pos
+    )
+
+
 def getFuncallString(fn, args):
     return f"{fn.name}({args.toStringAbbrev()})"
 
@@ -88,6 +97,10 @@ def invoke(fn, names_, args, environment, pos):
     except CklRuntimeError as e:
         e.stacktrace.append(getFuncallString(fn, args_) + " " + str(pos))
         raise
+    except CklSyntaxError:
+        raise
+    except Exception as e:
+        raise hostError(e, pos)
 
 
 class NodeAnd:
@@ -230,14 +243,19 @@ class NodeBlock:
     def evaluate(self, environment):
         result = TRUE
         try:
-            for expression in self.expressions:
-                result = expression.evaluate(environment)
-                if result.isReturn():
-                    break
-                if result.isBreak():
-                    break
-                if result.isContinue():
-                    break
+            try:
+                for expression in self.expressions:
+                    result = expression.evaluate(environment)
+                    if result.isReturn():
+                        break
+                    if result.isBreak():
+                        break
+                    if result.isContinue():
+                        break
+            except (CklRuntimeError, CklSyntaxError):
+                raise
+            except Exception as e:
+                raise hostError(e, self.pos)
         except CklRuntimeError as e:
             for err, expr in self.catchexprs:
                 if not err or e.value == err.evaluate(environment):
